@@ -83,6 +83,9 @@ def ref_transfer(fs: RefFS, x):
         elif mode == 'infer_dest':
             if single:
                 probes.add(dpath)
+                if any(fs.kind(dpath[:k]) == 'file' for k in range(1, len(dpath))):
+                    errors.add('NotADirectoryError')                         # a file is in the way of the destination itself
+                    continue
                 into = fs.kind(dpath) == 'dir'
             else:
                 into = True
